@@ -27,9 +27,26 @@ def sres_to_lin(x):
 def eval_method_rule(rep, facts, cls, reloc, rule):
     """Hi.eval / Lo.eval return reloc(<value of the inner expression evaluated with the same position, env, line>)."""
     ci = facts.classes.get(cls)
-    if ci is None or 'eval' not in ci.methods:
+    owner, m = facts.method(cls, 'eval') if ci is not None else (None, None)
+    if m is None or any(d for d in m.decorator_list):
         raise AnalysisError('anchor vanished: {}.eval'.format(cls))
-    m = ci.methods['eval']
+    me = m.args.args[0].arg if m.args.args else 'self'
+
+    def callee(func):
+        """Name of the function a call in eval() reaches: a plain name, or `self.<attr>` / `type(self).<attr>` where the class (or a
+        base) binds <attr> = staticmethod(f) / f at class level (a shared eval() in a base class, the relocation named per subclass)."""
+        d = dotted(func)
+        if d and '.' not in d:
+            return d
+        if isinstance(func, ast.Attribute) and (unparse(func.value) in (me, 'type({})'.format(me), me + '.__class__')):
+            for c in facts.mro(cls):
+                for st in facts.classes[c].node.body:
+                    if isinstance(st, ast.Assign) and any(isinstance(t, ast.Name) and t.id == func.attr for t in st.targets):
+                        v = st.value
+                        if isinstance(v, ast.Call) and dotted(v.func) == 'staticmethod' and len(v.args) == 1:
+                            v = v.args[0]
+                        return v.id if isinstance(v, ast.Name) else None
+        return None
     params = [a.arg for a in m.args.args][1:]
     rets = [n for n in ast.walk(m) if isinstance(n, ast.Return)]
     defs = {}
@@ -43,7 +60,7 @@ def eval_method_rule(rep, facts, cls, reloc, rule):
         return (isinstance(e, ast.Call) and isinstance(e.func, ast.Attribute) and e.func.attr == 'eval'
                 and unparse(e.func.value) == 'self.expr' and [unparse(a) for a in e.args] == params and not e.keywords)
 
-    ok = (len(rets) == 1 and isinstance(rets[0].value, ast.Call) and dotted(rets[0].value.func) == reloc
+    ok = (len(rets) == 1 and isinstance(rets[0].value, ast.Call) and callee(rets[0].value.func) == reloc
           and len(rets[0].value.args) == 1 and is_inner_eval(rets[0].value.args[0]))
     rep.check(ok, rule, '{}.eval == {}(inner.eval(position, env, line))'.format(cls, reloc),
               lambda: Finding(rule, cls + '.eval', rets[0] if rets else m,
